@@ -330,3 +330,20 @@ TEXT["C04"].update(
     level=TEXT["C04"]["level"] + " 'Complete whenever it fits' (Verus, unbounded): pkt_max(m) <= size ==> no record dropped, counts and TC as in the message (also exactly at the limit); the reply never exceeds pkt_max(m).")
 TEXT["C05"].update(
     level=TEXT["C05"]["level"] + " Upstream TCP reply framing (Verus): TcpNameserver::read_reply slices the connection buffer only within its length (inbuf[2..2+l], rule R6c keeps the bounds as an obligation).")
+
+TEXT["C01"].update(
+    level=TEXT["C01"]["level"] + " Whose lease it is (engine B, handler level, bounded): for option 61 of 0, 1, 2 and 7 octets or absent, the record behind every OFFER/ACK names the client as identified on the wire (the option's octets, else chaddr).")
+TEXT["C10"].update(
+    level=TEXT["C10"]["level"] + " Handler level (engine B, bounded): 6 client histories x DISCOVER/REQUEST x 5 identities x option 51 in {absent, 0, 60, 3600, 2^32-1}: lease time within [300, 86400] and equal to the recorded window.")
+TEXT["C02"].update(
+    level=TEXT["C02"]["level"] + " First matching sibling (engine B, real apply_policies, body-independent): 1..=3 sibling policies, flat and under a match-all parent, every subset matching -- address set and option value are those of the first matching sibling (28 cases).")
+TEXT["C11"].update(
+    level=TEXT["C11"]["level"] + " `null` (engine B, real Config::parse_policy): apply-<name>: null and match-<name>: null parse to the option present with NO value for each of the 74 named options of every type.")
+TEXT["C06"].update(
+    level=TEXT["C06"]["level"] + " The engine-B ageing check covers replies with records in all three sections (answer, authority, additional).")
+TEXT["C18"].update(
+    level=TEXT["C18"]["level"] + " Lock contention (engine B, file-backed SQLite): while a second connection holds BEGIN IMMEDIATE / EXCLUSIVE, allocate_address either fails (no reply) or the lease it returns is on disk afterwards (8 cases).")
+TEXT["C20"].update(
+    level=TEXT["C20"]["level"] + " The document (engine B, real serve_leases over a DhcpService with an in-memory pool): for stores of 0, 1, 3 and 5 leases, client identifiers of 0, 1, 2, 6 and 255 octets and host names absent / plain / with quote and backslash / control characters / non-ASCII (28 listings) the answer is 200 with valid JSON (RFC 8259 parser in the harness) carrying exactly one entry per lease with that lease's ip, client_id, start, expire and host name; a panic of the handler is a failure.")
+TEXT["C03"].update(
+    level=TEXT["C03"]["level"] + " 'Never dropped' on the transport that has room (Verus, R9 slice run_tcp_reply): what is written to a TCP client is the reply encoded with a limit of at least 65535 octets (emission-point precondition of TcpStream::write).")
